@@ -219,6 +219,15 @@ def _q7d(sa, sb, fA, fB, fC, fD, now):
         if abstract[nA] == "done" and abstract[nB] == "done" and not (fB >= fA):
             return q.SKIP
         n1 = len(jobs1)
+        if q.SHARD.get("mid") and nA in ids1 and abstract[nA] in ("pending", "running") and be != "local":
+            # an invocation in between (gwf status) happens at a moment when the scheduler's answer about A's job is unhelpful
+            # (SGE error state, Slurm: left the queue and not yet in accounting, LSF: empty bjobs answer); afterwards all is as before
+            from vf.props.C08 import _transient
+            j = w.sim.jobs[str(ids1[nA])]
+            saved = (j.state, j.in_queue, j.acct)
+            _transient(w, str(ids1[nA]))
+            w.status()
+            j.state, j.in_queue, j.acct = saved
         w.run()
         jobs2 = abst.jobs_by_cmd(w)[n1:]
         bstate = [abst.EXPECT[be][abstract[nm]] for nm in names]
@@ -270,10 +279,10 @@ QUERIES = [
               "Slurm with and without the multi-cluster output format '<id>;<cluster>'" % IDS},
     {"name": "Q7c", "fn": q7c, "shards": [{"be": b} for b in BES], "timeout": {"quick": 400, "thorough": 900},
      "bound": "two invocations, 3 targets, every dependency subset; A pending or running at the second invocation"},
-    {"name": "Q7d", "fn": q7d, "shards": {"quick": [{"be": b, "first": f} for b in BES for f in (["A"], ["B"])] + [{"be": "slurm", "first": f, "lab": "rev"} for f in (["A"], [])],
-                                          "thorough": [{"be": b, "first": f, "lab": lab} for b in BES for f in (["A"], ["B"], ["C"], []) for lab in ("topo", "rev")]},
+    {"name": "Q7d", "fn": q7d, "shards": {"quick": [{"be": b, "first": f} for b in BES for f in (["A"], ["B"])] + [{"be": "slurm", "first": f, "lab": "rev"} for f in (["A"], [])] + [{"be": b, "first": ["A"], "mid": True} for b in ("lsf", "sge", "slurm")],
+                                          "thorough": [{"be": b, "first": f, "lab": lab} for b in BES for f in (["A"], ["B"], ["C"], []) for lab in ("topo", "rev")] + [{"be": b, "first": f, "mid": True} for b in ("lsf", "sge", "slurm") for f in (["A"], ["B"])]},
      "timeout": {"quick": 600, "thorough": 1800},
-     "bound": "4 targets A->B->C, D<-(A,B) (a shortcut edge; in the rev shards the names are such that the middle target sorts before the root); invocation 1 = run of a named target, then each accepted job in one of 5 abstract states (symbolic), finish times symbolic ints; invocation 2 = run of everything"},
+     "bound": "4 targets A->B->C, D<-(A,B) (a shortcut edge; in the rev shards the names are such that the middle target sorts before the root); invocation 1 = run of a named target, then each accepted job in one of 5 abstract states (symbolic), finish times symbolic ints; optionally a status invocation while the scheduler's answer about A's job is momentarily unhelpful; invocation 2 = run of everything"},
 ]
 
 
